@@ -29,6 +29,8 @@ ALPHABET = "a1 .,-_/()'+#:"
 def ids(tier: str) -> List[str]:
     out = [''] + list(ALPHABET) + [a + b for a in ALPHABET for b in ALPHABET]
     out += ['a  b', 'a   b', '1  ', '  1', "Board 12 (A/B) #3: x+y, z_w - 'q'.", '12', 'Z9']
+    if tier == 'thorough':
+        out += [a + b + c for a in "a .:" for b in ALPHABET for c in "1 -'"]
     return out
 
 
@@ -270,7 +272,7 @@ def cases(tier: str, seed: int):
     # (5) deals: more deals from each first seat (voids etc. are C14's subject; here: the deal tag survives the file)
     for k in range(12 if tier == 'quick' else 60):
         P.append(([mk_board(k, seed + 6 + k)], dict(first=SEATS[k % 4], eol='\r\n' if k % 2 else '\n'), 'deal'))
-    if tier == 'thorough':
+    if True:
         for n in (3,):
             for header, eol, blank, before, between, after in itertools.product(RP.HEADERS, ('\n', '\r\n'), RP.BLANKS, range(4), (1, 2, 3), range(4)):
                 P.append((B[:n], dict(header=header, eol=eol, blank=blank, before=before, between=between, after=after, extras='all'), 'blanks3'))
